@@ -6,6 +6,7 @@
 import Mistune.Model.Block
 import Mistune.Model.BlockPluginsB
 import Mistune.Model.BlockPluginsA
+import Mistune.Model.Directives
 namespace Mistune
 namespace Model
 namespace Blk
@@ -23,7 +24,9 @@ def parseMethod (cfg : MdCfg) : Nat → ParseMethod
     | "blank_line" => parseBlankLine mt st
     | "atx_heading" => parseAtxHeading cfg mt st
     | "setex_heading" => parseSetexHeading cfg pm mt st
-    | "fenced_code" => parseFencedCode cfg mt st
+    | "fenced_code" =>
+      -- a `FencedDirective` with the default markers rebinds `_methods["fenced_code"]`
+      if fencedCodeRebound cfg then parseFencedCodeDir cfg pm mt st else parseFencedCode cfg mt st
     | "indent_code" => parseIndentCode cfg mt st
     | "thematic_break" => parseThematicBreak mt st
     | "ref_link" => parseRefLink cfg mt st
@@ -42,6 +45,9 @@ def parseMethod (cfg : MdCfg) : Nat → ParseMethod
     -- `Mistune.Model.BlockPluginsA`: math, speedup (spoiler: see `block_quote`)
     | "block_math" => if registered cfg "block_math" then parseBlockMath cfg mt st else .error .keyError
     | "paragraph" => if registered cfg "paragraph" then parseParagraph mt st else .error .keyError
+    -- `Mistune.Model.Directives`: the rule of the directive syntax
+    | "rst_directive" => if registered cfg "rst_directive" then parseRstDirective cfg pm mt st else .error .keyError
+    | "fenced_directive" => if registered cfg "fenced_directive" then parseFencedDirective cfg pm mt st else .error .keyError
     | _ => .error .keyError
 
 /-- nesting budget for a source: every nested activation of a handler (child parse or break rule) owns at least
